@@ -634,6 +634,51 @@ func checkC19(c *Ctx) Meta {
 				hasKey = true
 			}
 		}
+		if !(hasPath && hasSep && hasKey) {
+			// the same layout built by appending onto an empty buffer: path, then the separator, then the key,
+			// in this order and nothing else
+			okChain := false
+			for _, ret := range returnsOf(f) {
+				if len(ret.Results) == 0 || isNilConst(strip(ret.Results[0])) {
+					continue
+				}
+				var parts []*slice
+				cur := ret.Results[0]
+				for depth := 0; depth < 6; depth++ {
+					var ap *ssa.Call
+					valueOrigins(f, cur, func(r ssa.Value) {
+						if cl, ok := r.(*ssa.Call); ok {
+							if b, isB := cl.Call.Value.(*ssa.Builtin); isB && b.Name() == "append" && len(cl.Call.Args) == 2 {
+								ap = cl
+							}
+						}
+					})
+					if ap == nil {
+						break
+					}
+					parts = append([]*slice{backSlice(ap.Call.Args[1])}, parts...)
+					cur = ap.Call.Args[0]
+				}
+				_, baseIsMake := strip(cur).(*ssa.MakeSlice)
+				if ms, ok := strip(cur).(*ssa.MakeSlice); ok {
+					if k, isK := strip(ms.Len).(*ssa.Const); !isK || k.Value == nil || k.Value.ExactString() != "0" {
+						baseIsMake = false // a non-empty base shifts the layout
+					}
+				}
+				if len(parts) == 3 && baseIsMake &&
+					parts[0].hasField(pkgLDB+"."+recv, "path") && !parts[0].hasParam(f, "key") &&
+					parts[1].hasConstVal(sep) && !parts[1].hasParam(f, "key") && !parts[1].hasField(pkgLDB+"."+recv, "path") &&
+					parts[2].hasParam(f, "key") {
+					okChain = true
+				} else {
+					okChain = false
+					break
+				}
+			}
+			if okChain {
+				hasPath, hasSep, hasKey = true, true, true
+			}
+		}
 		if hasPath && hasSep && hasKey {
 			c.OK("C19-PREFIX", key, c.Pos(f.Pos()), "buffer = bucket path, separator at pathLen, key after it")
 		} else {
@@ -655,6 +700,14 @@ func checkC19(c *Ctx) Meta {
 				if cl, ok := st.Val.(*ssa.Call); ok && calleeID(cl) == "builtin.len" {
 					if t, f2, base, ok := fieldOfValue(cl.Call.Args[0]); ok && f2 == "path" && t == a.Type && accessPath(base) == accessPath(a.Base) {
 						okLen = true
+					}
+					// a constructor: len(p) of the very value it stores into the path field of the same object
+					for _, b := range fieldAccessesShallow(fn) {
+						if b.Kind == "store" && b.Field == "path" && b.Type == a.Type && b.Base == a.Base {
+							if pv := b.In.(*ssa.Store).Val; pv == cl.Call.Args[0] || sameOriginValue(fn, pv, cl.Call.Args[0]) {
+								okLen = true
+							}
+						}
 					}
 				}
 				if !okLen {
